@@ -17,6 +17,8 @@ CONFIGS = {
             "-fsanitize=address,undefined", "-fno-sanitize-recover=undefined", "-fno-omit-frame-pointer"],
     # as shipped (plus the hook): optimisation-only / sanitizer-only behaviour
     "rel": ["-std=gnu++14", "-O2", "-g", "-DNDEBUG", "-D" + GUARD],
+    # line-coverage build (tools/coverage.py): which source lines the correspondence runs execute
+    "cov": ["-std=gnu++14", "-O0", "-g", "-DNDEBUG", "-D" + GUARD, "--coverage"],
 }
 SAN_ENV = {
     "ASAN_OPTIONS": "exitcode=77:abort_on_error=0:detect_leaks=0:allocator_may_return_null=1",
@@ -276,10 +278,13 @@ def pmap(fn, items, workers=None):
 
 
 def write_evidence(prop, tier, seed, coverage, assumptions, wall_s, violations):
-    os.makedirs(os.path.join(ROOT, "evidence"), exist_ok=True)
+    # evidence committed under /verif always comes from /repo itself: runs against a scratch
+    # tree (VERIF_REPO, used to try seeded changes) write theirs under .build/
+    edir = os.path.join(ROOT, "evidence") if os.path.realpath(REPO) == "/repo" else os.path.join(BUILD, "evidence-scratch")
+    os.makedirs(edir, exist_ok=True)
     ev = dict(property_id=prop, tier=tier, seed=seed, level="proof", coverage=coverage,
               assumptions=assumptions, wall_s=round(wall_s, 2), violations=violations)
-    p = os.path.join(ROOT, "evidence", prop + ".json")
+    p = os.path.join(edir, prop + ".json")
     with open(p + ".tmp", "w") as f:
         json.dump(ev, f, indent=1)
     os.rename(p + ".tmp", p)
